@@ -5,7 +5,7 @@ import (
 	"github.com/tonistiigi/fsutil/zz_verif/v"
 )
 
-func twoDigits(i int) string { return string([]byte{byte('0' + i/10), byte('0' + i%10)}) }
+func vh_twoDigits(i int) string { return string([]byte{byte('0' + i/10), byte('0' + i%10)}) }
 
 // VH_C18_wildcard: one wildcard request in the last component matching N symlink chains
 // links/aNN -> ../mid/mNN -> ../data/fNN (N x 2 links followed, more than the 40-hop bound of a
@@ -19,7 +19,7 @@ func VH_C18_wildcard() {
 	m.MkDir(root+"/mid", 0755, 0, 0, 5)
 	m.MkDir(root+"/data", 0755, 0, 0, 5)
 	for i := 0; i < n; i++ {
-		id := twoDigits(i)
+		id := vh_twoDigits(i)
 		m.MkFile(root+"/data/f"+id, []byte("x"), 0644, 0, 0, 5)
 		m.MkSymlink(root+"/mid/m"+id, "../data/f"+id, 0, 0, 5)
 		m.MkSymlink(root+"/links/a"+id, "../mid/m"+id, 0, 0, 5)
@@ -40,14 +40,14 @@ func VH_C18_wildcard() {
 		}
 		for j := range res {
 			if i != j {
-				v.Assert(!specInside(res[i], res[j]), "no element of the result is inside another")
+				v.Assert(!vh_specInside(res[i], res[j]), "no element of the result is inside another")
 			}
 		}
 	}
 	for i := 0; i < n; i++ {
-		id := twoDigits(i)
-		v.Assert(coveredBy(res, "data/f"+id), "the final location of every matched chain is covered")
-		v.Assert(coveredBy(res, "mid/m"+id), "every traversed intermediate link is covered")
+		id := vh_twoDigits(i)
+		v.Assert(vh_coveredBy(res, "data/f"+id), "the final location of every matched chain is covered")
+		v.Assert(vh_coveredBy(res, "mid/m"+id), "every traversed intermediate link is covered")
 	}
 	v.Cover("done")
 }
